@@ -32,6 +32,8 @@ def poly_expr(xs, j):
         return e + 0 * sum(xs, sp.Integer(0))
     for i in range(n):
         e += cji(j, i) * xs[i] * xs[i] * xs[(i + 1) % n]
+    if n >= 2:
+        e += xs[0] / (xs[1] * xs[1] + 3)
     if n:
         e += (2 + j) * xs[j % n]
     return e
@@ -43,6 +45,8 @@ def poly2_expr(xs, ys):
     for i in range(len(xs)):
         for k in range(len(ys)):
             e += cji(i, k) * xs[i] * ys[k] * ys[k]
+    if len(xs) and len(ys):
+        e += xs[0] / (ys[0] * ys[0] + 3)
     for i in range(len(xs)):
         e += (2 + i) * xs[i]
     return e
@@ -243,7 +247,8 @@ class Prop(BaseProp):
                 okk = False
             else:
                 got = [Fraction(b2f(b)) if isinstance(b, int) else None for b in impl]
-                okk = got == want
+                # the polynomial part of the closures is exact on the dyadic inputs; the quotient term is not: 2^-40 relative to max(1, |value|)
+                okk = len(got) == len(want) and all(g is not None and (g == w or abs(g - w) <= Fraction(1, 2 ** 40) * max(1, abs(w))) for g, w in zip(got, want))
             if not okk:
                 self.violations.append(Violation('counterexample', '%s (n=%d, m=%d%s) does not return the named partial derivatives of the closure in the documented order' % (
                     c['name'], len(c['x']), c['m'], ', ijk=%s' % (c['ijk'],) if c['ijk'] else ''), case=c,
@@ -263,4 +268,4 @@ class Prop(BaseProp):
     def rule_text(self):
         return ('all twenty drivers on asymmetric cubic closures R^n -> R^m that exist on both sides (Rust harness and Gallina), n in 0..6, m in 1..6, static 2/3 and dynamic '
                 'vectors, all index triples incl. repeated ones for third_partial_derivative_vec, try_ variants with closures returning distinct error codes; points on a dyadic grid so '
-                'that every result is exact: compared bit for bit with the hand model evaluated in Coq and exactly with sympy partial derivatives in the documented orientation')
+                'that the polynomial part of every result is exact; with two or more variables the closures also contain a quotient of expressions with non-parallel gradients and, from the fourth output on, constant outputs without derivative parts: compared bit for bit with the hand model evaluated in Coq and with sympy partial derivatives in the documented orientation (exactly, or to 2^-40 relative where the quotient term makes the result inexact)')
